@@ -791,6 +791,33 @@ def r3_eval(ctx, repo):
                else fails[key], node=upd, label="model: " + key)
 
 
+def r39(ctx, repo):
+    """Two datasets of one process must not share filter memo state (the
+    list of features seen at the last update, the cached box / polygon
+    arrays, the settings snapshot): what one dataset's update records there
+    would decide what the other one's update skips."""
+    from ..lib_common import shared_class_state
+    cls = repo.cls(FILT, "Filter")
+    found = shared_class_state(cls)
+    seen = set()
+    for attr, lvl, node in found:
+        if attr in seen:
+            continue
+        seen.add(attr)
+        ctx.ob("R3.9", False,
+               f"`{attr}` is bound at class level to a mutable object and "
+               f"changed in place through self (`{short(node, 50)}`), "
+               "__init__ never gives the instance its own: every Filter of "
+               "the process shares it – what one dataset's update records "
+               "there decides what another dataset's update recomputes",
+               node=node, key=f"{FILT}::Filter::per-instance {attr}")
+    ctx.ob("R3.9", not found,
+           "no class-level mutable object of Filter is mutated through an "
+           "instance" if not found else
+           f"{len(seen)} shared attribute(s): {sorted(seen)}",
+           node=cls, label="filter state per instance")
+
+
 def run(ctx):
     repo = ctx.repo
     ctx.rule("R3.1", "settings diff covers removed keys; snapshot is a copy "
@@ -818,6 +845,10 @@ def run(ctx):
              "or unique id, never by value equality", minimum=1)
     r38(ctx, repo)
     r37(ctx, repo)
+    ctx.rule("R3.9", "the memo state of a Filter belongs to one instance: "
+             "no class-level mutable object is mutated through self",
+             minimum=1)
+    r39(ctx, repo)
 
 
 MUTANTS = [
